@@ -317,6 +317,10 @@ class Result:
     def __init__(self, prop, tier, seed):
         self.prop, self.tier, self.seed = prop, tier, seed
         self.t0 = time.time()
+        if os.path.isdir(REPLAY):
+            for f in os.listdir(REPLAY):
+                if f.startswith(prop + "_"):
+                    os.remove(os.path.join(REPLAY, f))
         self.violations = []      # (replay_path, no_input_found: bool, what)
         self.known = []           # what
         self.notes = []
